@@ -568,10 +568,9 @@ func genWireItems(r *sim.Rng, n int, asPublisher bool) []WireItem {
 		case 5: // metadata variants
 			items = append(items, WireItem{Kind: "msg", Type: []int{18, 15, 18}[r.Intn(3)], Csid: 5, Msid: 1, Gen: []string{"meta_bad", "meta_nest", "rand", "amf_bigcount", "amf_shortlong", "meta_objvals", "meta_objvals"}[r.Intn(7)], N: []int{0, 1, 3, 50, 3000, 7, 11, 17}[r.Intn(8)], Seed: seed})
 		case 6: // deep nesting (up to the 16 MiB message limit occasionally)
-			depth := []int{100, 5000, 100000, 1000000, 3300000}[r.Intn(5)]
-			if quickTier && depth > 400000 {
-				depth = 400000 // the 16 MiB messages take seconds each: thorough tier only
-			}
+			// 400 000 levels are 2-3 MB of message and, at the 250 MB stack cap of the workers, more than any recursion
+			// that is not bounded by the parser survives; deeper (up to the 16 MiB message limit) only costs minutes per run
+			depth := []int{100, 5000, 100000, 400000, 400000}[r.Intn(5)]
 			gen := []string{"amf_nest_obj", "amf_nest_arr", "amf_nest_ecma", "meta_nest", "meta_nest_arr", "meta_nest_ecma", "cmd_nest_arr", "cmd_nest_arr"}[r.Intn(8)]
 			if gen == "amf_nest_ecma" && depth > 2000000 {
 				depth = 2000000
